@@ -500,4 +500,13 @@ def write_evidence(core, specs, prop, cfg, args, seed, gens, obs, results, disch
 
 
 if __name__ == '__main__':
-    sys.exit(main())
+    try:
+        code = main()
+    except SystemExit:
+        raise
+    except BaseException:
+        # a crash of the machinery is never a verdict about the code under verification: exit 3 (tool failure), not the interpreter's 1
+        traceback.print_exc()
+        print('ENGINE-CRASH: the checker itself failed (see the traceback above); no verdict')
+        code = 3
+    sys.exit(code)
